@@ -185,6 +185,9 @@ class M:
                 steps = self.draw(st.sampled_from([1, 3, 5, 7])) if not self.clamp else self.draw(st.sampled_from([0, -2, 3, 5]))
                 dur = self.draw(st.sampled_from([0, 5, 10, 21, 30])) if not self.clamp else self.draw(st.sampled_from([-5, 0, 10]))
                 L.append(f"rgb.fade({c()}, {c()}, {c()}, {dur}, {steps})"); self.state_dep += 1
+                if dur == 0 and self.draw(st.booleans()):
+                    # an instant fade directly followed by an operation that starts from / returns to the colour the fade left behind
+                    L.append(f"rgb.blink({c()}, {c()}, {c()}, times=1, delay_ms=1)" if self.draw(st.booleans()) else f"rgb.fade({c()}, {c()}, {c()}, 10, 3)")
             else:
                 t = self.draw(st.integers(1, 3)) if not self.clamp else self.draw(st.integers(-1, 2))
                 big = not self.clamp and self.draw(st.integers(0, 7)) == 0
